@@ -12,7 +12,7 @@ mkdir -p /tmp/seedrun_$tag
 git -C /repo worktree add -q --detach $wt HEAD || exit 2
 cp /repo/gemclus/tree/_utils.cpython-312-x86_64-linux-gnu.so $wt/gemclus/tree/ 2>/dev/null
 (cd $wt && git apply "$patch") || { echo "patch does not apply"; git -C /repo worktree remove --force $wt; rm -rf /tmp/seedrun_$tag; exit 2; }
-rsync -a --exclude replays --exclude .git /verif/ $vc/
+rsync -a --exclude replays --exclude .git ${VERIF_SRC:-/verif}/ $vc/
 rc_all=0
 for c in "$@"; do
   echo "--- $c ($tier) against $(basename $patch)"
